@@ -225,14 +225,29 @@ fn err_kind(e: &minijinja::Error) -> String {
 /// what to do with the environment: `Template::render`, `render_captured` + `State::render_block`,
 /// `Expression::eval` (the value is put into PROBE)
 enum Entry {
-    Render,
+    /// how: `render` | `captured` (render_captured + into_output) | `captured_to` (render_captured_to an io::Write) |
+    /// `named_str` (Environment::render_named_str: the main template compiled as an OWNED template)
+    Render(String),
     Block(String),
     Expr(String),
+    /// `Template::new_state` (no render; the context values are globals) + `State::render_block` /
+    /// `render_block_to_write`
+    NewStateBlock(String, bool),
+    /// `render_captured` + `State::call_macro(name, [d])`
+    Macro(String),
 }
 
 /// templates + context → rendered main template or error kind
-fn render(templates: &BTreeMap<String, String>, main: &str, ctx: &BTreeMap<String, String>, modes: &BTreeMap<String, String>, fmt: &str, entry: &Entry) -> Result<String, String> {
+fn render(templates: &BTreeMap<String, String>, main: &str, ctx: &BTreeMap<String, String>, modes: &BTreeMap<String, String>, fmt: &str, join: Option<&BTreeMap<String, String>>, loader: &str, entry: &Entry) -> Result<String, String> {
     let mut env = mk_env();
+    if let Some(join) = join {
+        // `Environment::set_path_join_callback`: references are aliases that resolve to registered names
+        let join = join.clone();
+        env.set_path_join_callback(move |name, _parent| match join.get(name) {
+            Some(n) => std::borrow::Cow::Owned(n.clone()),
+            None => std::borrow::Cow::Borrowed(name),
+        });
+    }
     if !modes.is_empty() {
         // `Environment::set_auto_escape_callback`: the custom callback decides some names, the default the rest
         let modes = modes.clone();
@@ -249,14 +264,63 @@ fn render(templates: &BTreeMap<String, String>, main: &str, ctx: &BTreeMap<Strin
             minijinja::escape_formatter(out, state, if value.is_none() { &Value::UNDEFINED } else { value })
         });
     }
-    for (n, s) in templates {
-        env.add_template_owned(n.clone(), s.clone()).map_err(|e| format!("ERR:{}", error_kind_name(&e)))?;
+    if loader == "loader" {
+        // `Environment::set_loader`: the templates are compiled on demand (the name still selects the mode)
+        let map = templates.clone();
+        env.set_loader(move |name| Ok(map.get(name).cloned()));
+    } else if loader == "borrowed" {
+        // `Environment::add_template` with borrowed sources (the harness leaks them: a few kB per case)
+        for (n, s) in templates {
+            let n: &'static str = Box::leak(n.clone().into_boxed_str());
+            let s: &'static str = Box::leak(s.clone().into_boxed_str());
+            env.add_template(n, s).map_err(|e| format!("ERR:{}", error_kind_name(&e)))?;
+        }
+    } else {
+        for (n, s) in templates {
+            env.add_template_owned(n.clone(), s.clone()).map_err(|e| format!("ERR:{}", error_kind_name(&e)))?;
+        }
     }
     let c: BTreeMap<String, Value> = ctx.iter().map(|(k, v)| (k.clone(), dec_value(v))).collect();
+    if let Entry::NewStateBlock(..) = entry {
+        for (k, v) in &c {
+            env.add_global(k.clone(), v.clone());
+        }
+    }
     match entry {
-        Entry::Render => {
+        Entry::Render(how) => {
+            if how == "named_str" {
+                let src = templates.get(main).ok_or_else(|| "ERR:TemplateNotFound".to_string())?;
+                return env.render_named_str(main, src, Value::from(c)).map_err(|e| err_kind(&e));
+            }
             let t = env.get_template(main).map_err(|e| format!("ERR:{}", error_kind_name(&e)))?;
-            t.render(Value::from(c)).map_err(|e| err_kind(&e))
+            match how.as_str() {
+                "captured" => t.render_captured(Value::from(c)).map(|cap| cap.into_output()).map_err(|e| err_kind(&e)),
+                "captured_to" => {
+                    let mut buf: Vec<u8> = Vec::new();
+                    t.render_captured_to(Value::from(c), &mut buf).map_err(|e| err_kind(&e))?;
+                    Ok(String::from_utf8_lossy(&buf).into_owned())
+                }
+                _ => t.render(Value::from(c)).map_err(|e| err_kind(&e)),
+            }
+        }
+        Entry::NewStateBlock(b, to_write) => {
+            let t = env.get_template(main).map_err(|e| format!("ERR:{}", error_kind_name(&e)))?;
+            let mut st = t.new_state();
+            if *to_write {
+                let mut buf: Vec<u8> = Vec::new();
+                st.render_block_to_write(b, &mut buf).map_err(|e| err_kind(&e))?;
+                Ok(String::from_utf8_lossy(&buf).into_owned())
+            } else {
+                st.render_block(b).map_err(|e| err_kind(&e))
+            }
+        }
+        Entry::Macro(name) => {
+            let t = env.get_template(main).map_err(|e| format!("ERR:{}", error_kind_name(&e)))?;
+            let arg = c.get("d").cloned().unwrap_or(Value::UNDEFINED);
+            let mut cap = t.render_captured(Value::from(c)).map_err(|e| err_kind(&e))?;
+            let full = cap.output().to_string();
+            let m = cap.with_state_mut(|st| st.call_macro(name, &[arg])).map_err(|e| err_kind(&e))?;
+            Ok(full + &m)
         }
         Entry::Block(b) => {
             let t = env.get_template(main).map_err(|e| format!("ERR:{}", error_kind_name(&e)))?;
@@ -290,15 +354,23 @@ fn run_case(case: &serde_json::Value) -> String {
         .map(|o| o.iter().map(|(k, v)| (k.clone(), v.as_str().unwrap().to_string())).collect())
         .unwrap_or_default();
     let fmt = case["fmt"].as_str().unwrap_or("default").to_string();
+    let join: Option<BTreeMap<String, String>> = case["join"]
+        .as_object()
+        .map(|o| o.iter().map(|(k, v)| (k.clone(), v.as_str().unwrap().to_string())).collect());
+    let loader = case["source"].as_str().unwrap_or("owned").to_string();
     let entry = if let Some(b) = case["block"].as_str() {
         Entry::Block(b.to_string())
+    } else if let Some(b) = case["nsblock"].as_str() {
+        Entry::NewStateBlock(b.to_string(), case["towrite"].as_bool().unwrap_or(false))
+    } else if let Some(m) = case["callmacro"].as_str() {
+        Entry::Macro(m.to_string())
     } else if let Some(e) = case["exprsrc"].as_str() {
         Entry::Expr(e.to_string())
     } else {
-        Entry::Render
+        Entry::Render(case["entry"].as_str().unwrap_or("render").to_string())
     };
     *PROBE.lock().unwrap() = None;
-    let r = guarded(|| render(&templates, &main, &ctx, &modes, &fmt, &entry));
+    let r = guarded(|| render(&templates, &main, &ctx, &modes, &fmt, join.as_ref(), &loader, &entry));
     match r {
         Err(p) => format!("PANIC:{}", enc_str(&p)),
         Ok(Err(e)) => e,
@@ -1092,7 +1164,16 @@ fn gen_x(out: &mut impl Write) {
 }
 
 // ------------------------------------------------------------------------------- stream M / N
-fn emit_case(out: &mut impl Write, case: serde_json::Value) {
+static ENTRY_ROT: std::sync::atomic::AtomicUsize = std::sync::atomic::AtomicUsize::new(0);
+
+/// the probe streams (K, T, M, N) go through the ways a host can render a template in turn
+fn emit_case(out: &mut impl Write, mut case: serde_json::Value) {
+    let s = case["s"].as_str().unwrap_or("").to_string();
+    if matches!(s.as_str(), "K" | "T" | "M" | "N") && case["t"].is_object() && case["entry"].is_null() {
+        let k = ENTRY_ROT.fetch_add(1, std::sync::atomic::Ordering::Relaxed);
+        case["entry"] = json!(["render", "captured", "captured_to", "named_str"][k % 4]);
+        case["source"] = json!(["owned", "borrowed", "loader"][(k / 4) % 3]);
+    }
     let res = run_case(&case);
     writeln!(out, "{}\t{}", case, res).unwrap();
 }
@@ -1258,6 +1339,18 @@ fn gen_names(out: &mut impl Write) {
         ] };
         let case = prog_case("N", &[t], name, &ctx, false, json!({"name": name, "mode": m}));
         emit_case(out, case);
+        // whatever the name selects, an explicit `autoescape true` / `"html"` region puts Html in effect
+        // (`true` keeps the template's own format when that is not None)
+        for region in ["true", "\"html\""] {
+            let rm = if region == "true" && m == "j" { "j" } else { "h" };
+            let t = Tmpl { name: name.into(), body: vec![S::Auto(region, vec![
+                S::Emit(dv()), S::SetBlock("x".into(), vec![S::Emit(dv())], None), S::Emit(E::Var("x".into())),
+                S::Emit(E::Filt("escape".into(), "e".into(), vec![dv()], vec![])),
+                S::Emit(E::Bin("~", Box::new(E::Var("x".into())), Box::new(dv()))),
+            ])], ..Default::default() };
+            let case = prog_case("N", &[t], name, &ctx, false, json!({"name": format!("{name}+autoescape {region}"), "mode": rm, "region": region}));
+            emit_case(out, case);
+        }
     }
 }
 
@@ -1285,12 +1378,18 @@ fn gen_cross(out: &mut impl Write) {
     };
     let cfgs: Vec<(&str, Cfg)> = vec![
         ("default-callback", Cfg::default()),
-        ("custom-callback", Cfg { modes: vec![("l.txt".into(), 'h'), ("l.html".into(), 'n'), ("m.txt".into(), 'h'), ("m.html".into(), 'h')], fmt_none_undef: false }),
+        ("custom-callback", Cfg { modes: vec![("l.txt".into(), 'h'), ("l.html".into(), 'n'), ("m.txt".into(), 'h'), ("m.html".into(), 'h')], fmt_none_undef: false, join: "" }),
     ];
-    for data in datas {
+    for (di, data) in datas.into_iter().enumerate() {
         let mut ctx = serde_json::Map::new();
         ctx.insert("d".into(), json!(format!("S0:{}", enc_str(data))));
-        for (cfgname, cfg) in &cfgs {
+        for (cfgname, cfg0) in &cfgs {
+          // environment configuration axis: a path-join callback (references written as aliases)
+          for join in ["", "noext", "otherext", "dir"] {
+            if di == 1 && !join.is_empty() {
+                continue;
+            }
+            let cfg = &Cfg { join, ..cfg0.clone() };
             for lib in ["l.html", "l.txt", "l.json", "sub/l.xml.j2"] {
                 for main in ["m.html", "m.txt", "m.xml"] {
                     let lm = mode_char(lib, cfg);
@@ -1331,12 +1430,21 @@ fn gen_cross(out: &mut impl Write) {
                         ("extends-child-variable", "-", vec![libt(vec![], vec![], vec![S::Block("b".into(), vec![S::Emit(x())])]),
                             Tmpl { name: main.into(), extends: Some(lib.into()), pre: vec![capx(), S::Emit(dv())], ..Default::default() }]),
                     ];
-                    for (kind, site, ts) in kinds {
-                        let case = prog_case_cfg("T", &ts, main, &ctx, false, cfg, json!({"kind": kind, "site": site, "lib": lib, "libmode": lm.to_string(), "mainmode": mm.to_string(), "callback": cfgname}));
+                    for (kind, site, mut ts) in kinds {
+                        // whatever crossed over, what the main template prints AFTERWARDS is written in the main
+                        // template's own mode (the mode is restored after an include / a macro / a module)
+                        let tail = !kind.starts_with("extends");
+                        if tail {
+                            let mt = ts.last_mut().unwrap();
+                            mt.body.push(S::Text("¦".into()));
+                            mt.body.push(S::Emit(dv()));
+                        }
+                        let case = prog_case_cfg("T", &ts, main, &ctx, false, cfg, json!({"kind": kind, "site": site, "lib": lib, "libmode": lm.to_string(), "mainmode": mm.to_string(), "callback": cfgname, "tail": tail}));
                         emit_case(out, case);
                     }
                 }
             }
+          }
         }
     }
 }
@@ -1363,6 +1471,26 @@ fn gen_blocks(out: &mut impl Write) {
                     emit_case(out, case);
                 }
             }
+            // entry points that start from a State: `Template::new_state` + render_block / render_block_to_write
+            // (nothing of the template has run: the model is the block's body as a template of that name, the
+            // context values are globals), and `State::call_macro` on a captured state (model: the call printed)
+            let mm = MacroDef { name: "mm".into(), params: vec!["a".into()], body: vec![S::Text("(".into()), S::Emit(E::Var("a".into())), S::Text(")".into())], uses_caller: false };
+            let body = vec![S::Text("[".into()), S::Emit(dv()), S::Emit(E::Lit("<'lit\">".into())), S::SetBlock("y".into(), vec![S::Text("(".into()), S::Emit(dv()), S::Text(")".into())], None),
+                S::Emit(E::Var("y".into())), S::Emit(E::Filt("upper".into(), "upper".into(), vec![E::Var("y".into())], vec![])), S::Emit(E::Bin("~", Box::new(E::Var("y".into())), Box::new(dv()))),
+                S::Emit(E::Filt("escape".into(), "e".into(), vec![dv()], vec![])), S::Text("]".into())];
+            let engine_t = Tmpl { name: main.into(), body: vec![S::Text("T".into()), S::Block("hi".into(), body.clone())], ..Default::default() };
+            let model_t = Tmpl { name: main.into(), body: body.clone(), ..Default::default() };
+            for to_write in [false, true] {
+                let mut case = prog_case("B", &[model_t.clone()], main, &ctx, false, json!({"kind": if to_write { "new-state-block-to-write" } else { "new-state-block" }, "nsblock": "hi", "towrite": to_write,
+                    "mainmode": mode_char(main, &Cfg::default()).to_string()}));
+                case["t"] = json!({main: tmpl_src(&engine_t)});
+                emit_case(out, case);
+            }
+            let engine_t = Tmpl { name: main.into(), macros: vec![mm.clone()], body: vec![S::Text("T".into())], ..Default::default() };
+            let model_t = Tmpl { name: main.into(), macros: vec![mm.clone()], body: vec![S::Text("T".into()), S::Emit(E::Call("mm".into(), vec![dv()]))], ..Default::default() };
+            let mut case = prog_case("B", &[model_t], main, &ctx, false, json!({"kind": "call-macro", "callmacro": "mm", "mainmode": mode_char(main, &Cfg::default()).to_string()}));
+            case["t"] = json!({main: tmpl_src(&engine_t)});
+            emit_case(out, case);
         }
     }
 }
@@ -1428,7 +1556,7 @@ fn gen_formatter(out: &mut impl Write) {
         for (kind, body) in bodies {
             for main in ["f.html", "f.txt"] {
                 let t = Tmpl { name: main.into(), macros: vec![mac.clone()], body: body.clone(), ..Default::default() };
-                let cfg = Cfg { modes: vec![], fmt_none_undef: true };
+                let cfg = Cfg { modes: vec![], fmt_none_undef: true, join: "" };
                 let case = prog_case_cfg("R", &[t], main, &ctx, false, &cfg, json!({"kind": kind, "mainmode": mode_char(main, &Cfg::default()).to_string()}));
                 emit_case(out, case);
             }
@@ -1531,6 +1659,62 @@ struct Tmpl {
 struct Cfg {
     modes: Vec<(String, char)>,
     fmt_none_undef: bool,
+    /// `Environment::set_path_join_callback`: how references to other templates are WRITTEN in the sources
+    /// ("" = as registered; "noext" = without extension, the callback adds it; "otherext" = an alias whose
+    /// extension selects another mode than the template it resolves to; "dir" = `./name`).  The model sees the
+    /// resolved names only: the mode of a template is the one ITS name selects, however it was referred to.
+    join: &'static str,
+}
+
+/// the name a reference to template `name` is written as under a path-join style
+fn written_name(style: &str, name: &str, mode: char) -> String {
+    match style {
+        "noext" => {
+            let (dir, file) = match name.rfind('/') { Some(i) => (&name[..=i], &name[i + 1..]), None => ("", name) };
+            format!("{dir}{}", file.split('.').next().unwrap_or(file))
+        }
+        "otherext" => {
+            let file = name.rsplit('/').next().unwrap_or(name);
+            let stem = file.split('.').next().unwrap_or(file);
+            format!("alias/{stem}{}", if mode == 'h' { ".txt" } else { ".html" })
+        }
+        "dir" => format!("./{name}"),
+        _ => name.to_string(),
+    }
+}
+
+fn map_refs_stmts(ss: &[S], f: &dyn Fn(&str) -> String) -> Vec<S> {
+    ss.iter().map(|s| map_refs_stmt(s, f)).collect()
+}
+
+/// the statement with every template reference renamed (source rendering under a path-join callback)
+fn map_refs_stmt(s: &S, f: &dyn Fn(&str) -> String) -> S {
+    match s {
+        S::Include(n) => S::Include(f(n)),
+        S::SetBlock(n, b, fl) => S::SetBlock(n.clone(), map_refs_stmts(b, f), fl.clone()),
+        S::FilterBlock(m, syn, ps, b) => S::FilterBlock(m.clone(), syn.clone(), ps.clone(), map_refs_stmts(b, f)),
+        S::For(v, it, rec, b, el) => S::For(v.clone(), it.clone(), *rec, map_refs_stmts(b, f), map_refs_stmts(el, f)),
+        S::If(c, a, b) => S::If(c.clone(), map_refs_stmts(a, f), map_refs_stmts(b, f)),
+        S::With(n, e, b) => S::With(n.clone(), e.clone(), map_refs_stmts(b, f)),
+        S::CallBlock(m, args, b) => S::CallBlock(m.clone(), args.clone(), map_refs_stmts(b, f)),
+        S::Block(n, b) => S::Block(n.clone(), map_refs_stmts(b, f)),
+        S::Auto(a, b) => S::Auto(a, map_refs_stmts(b, f)),
+        S::Text(_) | S::Emit(_) | S::Set(_, _) => s.clone(),
+    }
+}
+
+fn map_refs_tmpl(t: &Tmpl, f: &dyn Fn(&str) -> String) -> Tmpl {
+    Tmpl {
+        name: t.name.clone(),
+        extends: t.extends.as_ref().map(|p| f(p)),
+        imports: t.imports.iter().map(|i| match i {
+            Imp::Mod(n, a) => Imp::Mod(f(n), a.clone()),
+            Imp::From(n, ns) => Imp::From(f(n), ns.clone()),
+        }).collect(),
+        pre: map_refs_stmts(&t.pre, f),
+        macros: t.macros.iter().map(|m| MacroDef { name: m.name.clone(), params: m.params.clone(), body: map_refs_stmts(&m.body, f), uses_caller: m.uses_caller }).collect(),
+        body: map_refs_stmts(&t.body, f),
+    }
 }
 
 fn lit_src(s: &str) -> String {
@@ -2422,6 +2606,12 @@ fn gen_program(seed: u64, idx: u64) -> (Program, Vec<&'static str>, Vec<S>, bool
         g.feat("custom-formatter");
         cfg.fmt_none_undef = true;
     }
+    if g.rng.chance(1, 4) {
+        // `Environment::set_path_join_callback`: every reference (include / import / from / extends) is written
+        // as an alias the callback resolves
+        cfg.join = *g.rng.pick(&["noext", "otherext", "dir", "noext"]);
+        g.feat(match cfg.join { "noext" => "path-join-noext", "otherext" => "path-join-otherext", _ => "path-join-dir" });
+    }
     let mut main = Tmpl { name: main_name.clone(), imports: imports.clone(), ..Default::default() };
     let nm = g.rng.below(3);
     for _ in 0..nm {
@@ -2543,11 +2733,27 @@ fn prog_case(stream: &str, templates: &[Tmpl], main: &str, ctx: &serde_json::Map
 
 fn prog_case_cfg(stream: &str, templates: &[Tmpl], main: &str, ctx: &serde_json::Map<String, serde_json::Value>, strict: bool, cfg: &Cfg, extra: serde_json::Value) -> serde_json::Value {
     let mut t = serde_json::Map::new();
+    // path-join callback: written name -> resolved name (only the SOURCES use the written names)
+    let mut join: BTreeMap<String, String> = BTreeMap::new();
+    if !cfg.join.is_empty() {
+        for tm in templates {
+            let w = written_name(cfg.join, &tm.name, mode_char(&tm.name, cfg));
+            if w != tm.name && !templates.iter().any(|x| x.name == w) && !join.contains_key(&w) {
+                join.insert(w, tm.name.clone());
+            }
+        }
+    }
+    let inv: BTreeMap<String, String> = join.iter().map(|(w, n)| (n.clone(), w.clone())).collect();
+    let f = |n: &str| inv.get(n).cloned().unwrap_or_else(|| n.to_string());
     for tm in templates {
-        t.insert(tm.name.clone(), json!(tmpl_src(tm)));
+        t.insert(tm.name.clone(), json!(if inv.is_empty() { tmpl_src(tm) } else { tmpl_src(&map_refs_tmpl(tm, &f)) }));
     }
     let mut case = json!({"s": stream, "main": main, "t": t, "ctx": ctx, "strict": strict as u8,
         "prog": prog_sx(templates, main, cfg), "ctxsx": ctx_sx(ctx)});
+    if !cfg.join.is_empty() {
+        case["join"] = json!(join);
+        case["joinstyle"] = json!(cfg.join);
+    }
     if !cfg.modes.is_empty() {
         let mut m = serde_json::Map::new();
         for (n, c) in &cfg.modes {
@@ -2573,7 +2779,14 @@ fn gen_programs(out: &mut impl Write, tier: &str) {
     for idx in 0..n {
         let (p, feats, wrap_body, inherit) = gen_program(master.next(), idx);
         let ctx = prog_ctx(&p);
-        let case = prog_case_cfg("P", &p.templates, &p.main, &ctx, true, &p.cfg, json!({"idx": idx, "seed": seed, "feats": feats}));
+        // entry-point axis: the same program through every way the host can render a template
+        let entry = ["render", "captured", "captured_to", "named_str"][(idx % 4) as usize];
+        let mut feats = feats;
+        feats.push(match entry { "captured" => "entry-render_captured", "captured_to" => "entry-render_captured_to", "named_str" => "entry-render_named_str", _ => "entry-render" });
+        // template source axis: registered up front or compiled on demand by a loader
+        let source = ["owned", "borrowed", "loader"][((idx / 4) % 3) as usize];
+        feats.push(match source { "loader" => "templates-from-loader", "borrowed" => "templates-borrowed", _ => "templates-owned" });
+        let case = prog_case_cfg("P", &p.templates, &p.main, &ctx, true, &p.cfg, json!({"idx": idx, "seed": seed, "feats": feats, "entry": entry, "source": source}));
         let res = run_case(&case);
         writeln!(out, "{}\t{}", case, res).unwrap();
         // wrappers: the same body inside a capturing construct renders identically
